@@ -17,7 +17,7 @@
 (***************************************************************************)
 EXTENDS ThOps, Json
 
-CONSTANTS Keys, Ids, Lens, Depth, MaxN, Deviations, Emit
+CONSTANTS Keys, Ids, Lens, Depth, MaxN, BigTN, Deviations, Emit
 
 VARIABLES phase, ct, last
 vars == <<phase, ct, last>>
@@ -92,13 +92,19 @@ Ops(c) == {COp(x, "") : x \in {"UAddGen", "UNeg", "UScale", "UId", "USwap", "VFl
 SigDen(sr) ==
   LET base == Sign(SkOf(sr.k), sr.scheme, DenMsg(sr.id)).v
       \* recombination of cnt <= n shares 1..cnt of a fresh deal of key k
+      \* route "big": (t, n) up to 255 by subset shape, from the provenance layer alone (ThOps!IdealWhole) -
+      \* enough distinct honest shares give the whole-key signature, fewer give an unrelated multiple of H(id)
       rec == IF sr.route = "whole" THEN base
+             ELSE IF sr.route = "big"
+             THEN (IF IdealWhole([i \in 1..Len(sr.ids) |-> [id |-> sr.ids[i], src |-> sr.ids[i], ok |-> TRUE, scheme |-> sr.scheme]], sr.t)
+                   THEN base ELSE GScale(PAtom("short"), base))
              ELSE LET es == [i \in 1..sr.cnt |-> [id |-> i, src |-> i, ok |-> TRUE, scheme |-> sr.scheme]]
                   IN CombineGroup(es, [i \in 1..sr.cnt |-> GScale(ShareVal(SkOf(sr.k), "a", sr.t, i), Hs(TagOf(sr.scheme), DenMsg(sr.id)))])
   IN CASE sr.how = "identity" -> GId [] sr.how = "neg" -> GNeg(rec) [] OTHER -> rec
 
 SR(k, s, id, route, t, n, cnt, label, how) ==
-  [k |-> k, scheme |-> s, id |-> id, route |-> route, t |-> t, n |-> n, cnt |-> cnt, label |-> label, how |-> how]
+  [k |-> k, scheme |-> s, id |-> id, route |-> route, t |-> t, n |-> n, cnt |-> cnt, label |-> label, how |-> how, ids |-> <<>>]
+SRBig(k, s, id, t, n, sh) == [SR(k, s, id, "big", t, n, Len(ShapeIds(sh, t, n)), s, "honest") EXCEPT !.ids = ShapeIds(sh, t, n)]
 
 SigRecipes(c) ==
   {SR(k, s, id, "whole", 0, 0, 0, s, "honest") : k \in Keys \ {0}, s \in Schemes, id \in Ids}
@@ -106,6 +112,8 @@ SigRecipes(c) ==
   \cup {SR(c.k, c.scheme0, c.id, "whole", 0, 0, 0, c.scheme0, how) : how \in {"identity", "neg"}}
   \cup {SR(c.k, s, c.id, "shares", tn[1], tn[2], cnt, s, "honest") :
           s \in {"Basic", "Pop"}, tn \in {x \in (2..MaxN) \X (2..MaxN) : x[1] <= x[2]}, cnt \in 2..MaxN}
+  \cup (IF c.wn = 5 /\ c.ops = <<>> THEN UNION {{SRBig(c.k, s, c.id, tn[1], tn[2], sh) : s \in {"Basic", "Pop"} \cap {c.scheme0}, sh \in {x \in Shapes : Len(ShapeIds(x, tn[1], tn[2])) >= 2}} : tn \in BigTN}
+         ELSE {})
 
 \* ------------------------------------------------------------ system
 Quiet == [act |-> "-"]
@@ -141,7 +149,7 @@ ADecrypt(sr) ==
                 benign |-> LET o == Seal(PkOf(ct.k), ct.scheme0, DenMsg(ct.id), ct.wn) IN
                              (ct.u = o.u /\ ct.vk = o.vk /\ ct.vtam = "" /\ ct.scheme = ct.scheme0 /\ WOutcome(ct.wn, ct.wtam) = "M"),
                 rightsig |-> (/\ sr.k = ct.k /\ sr.scheme = ct.scheme0 /\ sr.id = ct.id /\ sr.label = ct.scheme0 /\ sr.how = "honest"
-                              /\ (sr.route = "shares" => sr.cnt >= sr.t)),
+                              /\ (sr.route \in {"shares", "big"} => sr.cnt >= sr.t)),
                 hardtouched |-> LET o == Seal(PkOf(ct.k), ct.scheme0, DenMsg(ct.id), ct.wn) IN
                                   (ct.u # o.u \/ ct.vk # o.vk \/ ct.vtam # "" \/ WOutcome(ct.wn, ct.wtam) # "M"),
                 relabelled |-> (ct.scheme # ct.scheme0), curlabel |-> ct.scheme,
@@ -177,7 +185,7 @@ OpensIff == Judged("TLDecrypt") =>
       (/\ ~last.hardtouched
        /\ last.sig.k = last.ct.k /\ last.sig.id = last.ct.id /\ last.sig.scheme = last.ct.scheme0 /\ last.sig.how = "honest"
        /\ last.sig.label = last.curlabel
-       /\ (last.sig.route = "shares" => last.sig.cnt >= last.sig.t)))
+       /\ (last.sig.route \in {"shares", "big"} => last.sig.cnt >= last.sig.t)))
 BenignStillOpens == (Judged("TLDecrypt") /\ last.touched /\ last.benign /\ last.rightsig) => last.expect.out = "Some"
 \* C04
 NoIdentity == (Judged("TLDecrypt") /\ last.idpt) => last.expect.out = "None"
